@@ -9,7 +9,7 @@
    the plain string-prefix tests / the two-test filter the code had before. *)
 From PV Require Import Base.Prelude Model.Paths Model.Include Model.Require Model.FilesInst
   Model.RequireWalk Spec.PathSpec Proofs.PathProofs Proofs.IncludeProofs Proofs.RequireProofs
-  Proofs.RequireWalkProofs Instances.HoldsC12.
+  Proofs.RequireWalkProofs Proofs.IncludeHolds Instances.HoldsC12.
 
 (* the posixpath model computes reference locations: abspath / normpath do not move a path *)
 Theorem C12_abspath_location : forall cwd p,
@@ -54,6 +54,30 @@ Theorem C12_include_ok_spec : forall cwd home isfile cart inc p,
   p = include_full_path cwd cart inc /\ isfile p = true /\ locate cwd p = locate cwd (join (dirname cart) inc).
 Proof. exact include_ok_spec_now. Qed.
 Print Assumptions C12_include_ok_spec.
+
+(* the accesses of the model of one include line (isfile, then open) satisfy the instance predicate the
+   monitor evaluates - whose root the Spec computes from the cart's name, independently of the model - for
+   every cart outside the PICO-8 carts folders whose name ends in an ordinary file name and does not start
+   with "~" (for carts inside a carts folder the two roots are compared at run time only) *)
+Theorem C12_include_model_holds : forall cwd home isfile,
+  absolute cwd = true ->
+  forall cart inc,
+  proper_name cart -> expanduser home cart = cart ->
+  (forall c, In c T_files_p8.pico8_cart_paths -> underb cwd (expanduser home c) cart = false) ->
+  let r := include_accesses_now cwd home isfile cart inc in
+  holds_C12_include cwd (map (expanduser home) T_files_p8.pico8_cart_paths) cart inc (snd r) [] (map acc_event (fst r)) = true.
+Proof. exact include_model_holds. Qed.
+Print Assumptions C12_include_model_holds.
+
+Theorem C12_include_accesses : forall cwd home isfile cart inc,
+  match resolve_include_now cwd home isfile cart inc with
+  | Ok p => include_accesses_now cwd home isfile cart inc = ([(false, p); (true, p)], false)
+  | Err IncludeNotFound =>
+    include_accesses_now cwd home isfile cart inc = ([(false, include_full_path cwd cart inc)], true)
+  | Err _ => include_accesses_now cwd home isfile cart inc = ([], true)
+  end.
+Proof. exact include_accesses_resolve. Qed.
+Print Assumptions C12_include_accesses.
 
 (* with plain string-prefix tests (the code before the fixes; kinds 0) both statements are false:
    `#include ../foobar/x.lua` from /t/foo/c.p8, and `#include ../cartsY/x.lua` from a cart in
